@@ -57,8 +57,16 @@ APP_SERVERS = [("10.9.9.9", 11211), "10.9.9.9:11211", "10.9.9.9", "[fd00::9]:112
 APP_ADDRS = [("10.9.9.9", 11211), ("fd00::9", 11211), "/tmp/app.sock", ("App-Host", 11211)]
 
 
-def cluster_body(version, idxs):
-    return b"%d\n" % version + " ".join("%s|%s|%d" % NODES[i] for i in idxs).encode() + b"\n"
+def cluster_body(version, idxs, layout=None):
+    """the payload of 'config get cluster': version line, node line; `layout` names a variation an endpoint, an emulator or a
+    proxy may serve: CR LF line ends, a very large version number (a blank at the end of the node line is NOT among them: the
+    pinned parser takes it for an empty node, and the documented format has none)"""
+    nodes = " ".join("%s|%s|%d" % NODES[i] for i in idxs).encode()
+    if layout == "crlf":
+        return b"%d\r\n" % version + nodes + b"\r\n"
+    if layout == "huge-version":
+        return b"%d\n" % (version + 10 ** 30) + nodes + b"\n"
+    return b"%d\n" % version + nodes + b"\n"
 
 
 class World:
@@ -79,17 +87,19 @@ class World:
         for a in APP_ADDRS:
             self.net.add_server(a, self.app)
 
-    def advertise(self, version, idxs):
-        self.cfg.cluster_config = cluster_body(version, idxs)
+    def advertise(self, version, idxs, layout=None):
+        self.cfg.cluster_config = cluster_body(version, idxs, layout if layout is not None else getattr(self, "layout", None))
 
 
 def check(case):
     w = World(case.get("schedule"))
+    w.layout = case.get("layout")
     use_vpc = case.get("use_vpc", True)
     steps = case["steps"]                       # list of node-index lists; steps[0] is the list at construction
     nkeys = case.get("nkeys", 60)
-    desc = "use_vpc=%r pooling=%r steps=%r schedule=%r%s" % (use_vpc, case.get("pooling", False), steps, (case.get("schedule") or [])[:6],
-                                                             " app_add=%r" % case["app_add"] if case.get("app_add") else "")
+    desc = "use_vpc=%r pooling=%r steps=%r schedule=%r%s%s" % (use_vpc, case.get("pooling", False), steps, (case.get("schedule") or [])[:6],
+                                                               " app_add=%r" % case["app_add"] if case.get("app_add") else "",
+                                                               " payload layout %s" % case["layout"] if case.get("layout") else "")
     labels = ["vpc" if use_vpc else "fqdn"]
     if case.get("endpoint_error"):
         w.cfg.cluster_error = case["endpoint_error"]
@@ -271,6 +281,12 @@ def fixed_history_cases(tier, seed):
         for pooling in (False, True):
             for vpc in (True, False):
                 yield {"steps": h, "use_vpc": vpc, "pooling": pooling, "nkeys": 60, "client_class": "tunnel"}
+    # other layouts of the configuration payload
+    for layout in ("crlf", "huge-version"):
+        for h in ([[0, 1, 2], [0]], [[0], [0, 1, 2, 3]], [[4, 5], [5, 4]]):
+            for vpc in (True, False):
+                for sched in (None, [1], [7, 3]):
+                    yield {"steps": h, "use_vpc": vpc, "pooling": bool(sched), "nkeys": 60, "layout": layout, "schedule": sched}
     # a node fails (and is marked failing / dead by traffic), heals, and discovery runs again
     for h, fb in [([[0, 1, 2], [0, 1, 2]], {"1": [1]}), ([[0, 1, 2], [0, 1, 2, 3]], {"1": [0, 2]}), ([[0, 1], [1], [0, 1]], {"1": [0], "2": [1]}),
                   ([[0, 1, 2], [0, 1, 2], [0, 1, 2]], {"1": [0, 1, 2], "2": [2]}), ([[4, 5], [4, 5]], {"1": [5]})]:
@@ -463,7 +479,7 @@ def history_strategy(tier):
     fb = st.dictionaries(st.sampled_from(["1", "2", "3"]), st.lists(st.integers(0, 7), min_size=1, max_size=3, unique=True), max_size=2)
     return st.fixed_dictionaries({"steps": st.lists(nodes, min_size=1, max_size=6), "use_vpc": st.sampled_from([True, False, 1, 0]), "pooling": st.booleans(),
                                   "nkeys": st.sampled_from([20, 60, 200]), "schedule": sched, "fail_before": fb,
-                                  "client_class": st.sampled_from([None, None, "tunnel"]), "app_add": st.one_of(st.none(), st.dictionaries(st.sampled_from(["1", "2", "3"]), st.lists(st.integers(0, 7), min_size=1, max_size=2), max_size=2)),
+                                  "client_class": st.sampled_from([None, None, "tunnel"]), "layout": st.sampled_from([None, None, "crlf", "huge-version"]), "app_add": st.one_of(st.none(), st.dictionaries(st.sampled_from(["1", "2", "3"]), st.lists(st.integers(0, 7), min_size=1, max_size=2), max_size=2)),
                                   "retry_attempts": st.sampled_from([0, 1, 2]), "version_base": st.sampled_from([1, 1, 8, 9, 98, 99, 65535])})
 
 
